@@ -137,6 +137,7 @@ class Explorer:
         self.nvars = 0
         self.notes = {}        # free-form per-path data for harnesses (e.g. chosen config)
         self.inputs = {}       # input name -> z3 var (harness-level symbols; used to extract replay values)
+        self.decided = {}
         self.solver.reset()
         self.solver.set('timeout', self.feas_timeout_ms)
 
@@ -171,7 +172,16 @@ class Explorer:
     def require_defined(self, cond, what):
         if z3.is_true(cond):
             return
-        self.defined.append((cond, what))
+        import sys as _sys
+        f = _sys._getframe(1)
+        where = ''
+        while f is not None:
+            fn = f.f_code.co_filename
+            if '/vf/symex/' not in fn and 'numpy' not in fn:
+                where = f' at {fn.split("/")[-1]}:{f.f_lineno}'
+                break
+            f = f.f_back
+        self.defined.append((cond, what + where))
 
     def feasible(self, extra):
         self.stats['feas_queries'] += 1
@@ -195,6 +205,9 @@ class Explorer:
             return True
         if z3.is_false(cond):
             return False
+        cid = cond.get_id()
+        if cid in self.decided:          # the same condition was already decided on this path
+            return self.decided[cid][0]
         i = len(self.trace)
         if i < len(self.replay):
             d = self.replay[i]
@@ -220,6 +233,7 @@ class Explorer:
         c = cond if d else z3.Not(cond)
         self.pc.append(c)
         self.solver.add(c)
+        self.decided[cid] = (d, cond)     # keeps cond alive so that its id stays unique
         return d
 
     def explore(self, fn, prefixes=None):
@@ -329,29 +343,49 @@ class Explorer:
             rest = nxt
         return sel
 
-    def prove_sliced(self, term, pc=None, timeout_ms=10000):
-        """prove() on the cone of influence of `term`, memoised per explorer."""
+    def prove_sliced(self, term, pc=None, timeout_ms=10000, defs=None, refine_timeout_ms=8000):
+        """prove() on the cone of influence of `term`, memoised per explorer.  With purified products (`defs`), the
+        first attempt uses the sign abstraction only; a `sat` is refined with the defining equations in the cone."""
         if isinstance(term, SymBool):
             term = term.t
         if isinstance(term, (bool, _np.bool_)):
             return self.prove(term, pc=pc, timeout_ms=timeout_ms)
         pc = self.pc if pc is None else pc
-        sel = self.slice_pc(pc, term)
+        defs = defs or []
+        def_eqs = [v == d for v, d in defs]
+        sel_all = self.slice_pc(list(pc) + def_eqs, term)
+        ids_defs = {e.get_id() for e in def_eqs}
+        sel = [c for c in sel_all if c.get_id() not in ids_defs]
+        sel_defs = [c for c in sel_all if c.get_id() in ids_defs]
         memo = self.__dict__.setdefault('_provecache', {})
-        key = (frozenset(c.get_id() for c in sel), term.get_id())
+        key = (frozenset(c.get_id() for c in sel_all), term.get_id())
         if key in memo:
             r, m = memo[key][0]
             self.stats['obl_' + r] += 1
             self.stats['obl_cache_hits'] = self.stats.get('obl_cache_hits', 0) + 1
             return r, m
         r, m = self.prove(term, pc=sel, timeout_ms=timeout_ms, defs=[])
+        if r == 'sat' and sel_defs:
+            self.stats['refinements'] += 1
+            self.stats['obl_sat'] -= 1
+            r2, m2 = self.prove(term, pc=sel + sel_defs, timeout_ms=refine_timeout_ms, defs=[])
+            if r2 == 'unknown':
+                # keep the abstract counterexample: its INPUT values are replayed on the real code, which recomputes
+                # every product; a model that does not reproduce is reported as inconclusive, never as a violation
+                self.stats['obl_unknown'] -= 1
+                self.stats['obl_sat'] += 1
+                self.stats['unrefined_sat'] = self.stats.get('unrefined_sat', 0) + 1
+                r2, m2 = 'sat', m
+                r3, m3 = self.check(z3.Not(term), pc=list(pc), timeout_ms=timeout_ms, defs=[])
+                return 'sat', (m3 if r3 == 'sat' else m)
+            r, m = r2, m2
         if r == 'sat':
             # the sliced model does not constrain the other inputs of the path: complete it on the full path condition
-            r2, m2 = self.check(z3.Not(term), pc=pc, timeout_ms=timeout_ms, defs=[])
+            r2, m2 = self.check(z3.Not(term), pc=list(pc) + sel_defs, timeout_ms=timeout_ms, defs=[])
             if r2 == 'sat':
                 return r, m2
             return r, m
-        memo[key] = ((r, m), sel, term)     # keep the terms alive (ids stay unique)
+        memo[key] = ((r, m), sel_all, term)     # keep the terms alive (ids stay unique)
         return r, m
 
     def prove(self, term, pc=None, timeout_ms=10000, defs=None):
@@ -489,7 +523,7 @@ def _div_terms(a, b, what='division'):
     vb = _numval(b)
     if vb is not None:
         if vb == 0:
-            raise ZeroDivisionError('float division by zero')
+            raise _DivByConcreteZero()
         va = _numval(a)
         if va is not None:
             return fr_to_z3(va / vb)
@@ -528,6 +562,10 @@ def _sub_terms(a, b):
     return a - b
 
 
+class _DivByConcreteZero(Exception):
+    pass
+
+
 class SymFloat:
     """z3 Real.  NOT a float subclass: leaks into C code are loud TypeErrors."""
     __array_ufunc__ = None
@@ -559,7 +597,18 @@ class SymFloat:
             t = lift(o)
         except TypeError:
             return NotImplemented
-        return SymFloat(f(t, self.t) if refl else f(self.t, t))
+        try:
+            return SymFloat(f(t, self.t) if refl else f(self.t, t))
+        except _DivByConcreteZero:
+            # numpy semantics (values in containers are numpy scalars): x / 0.0 = +-inf or nan, no exception.
+            # Recorded as a definedness violation of the path; the value follows IEEE by the sign of the numerator.
+            cur().require_defined(z3.BoolVal(False), 'division: divisor != 0 (concrete zero divisor)')
+            num = SymFloat(t) if refl else self
+            if num > 0:
+                return float('inf')
+            if num < 0:
+                return float('-inf')
+            return float('nan')
 
     def _inf_arith(self, o, name, refl):
         # value (finite symbolic) op ±inf following IEEE
@@ -694,7 +743,10 @@ class SymFloat:
     def __ge__(s, o): return s._cmp(o, 'ge')
     def __eq__(s, o): return s._cmp(o, 'eq')
     def __ne__(s, o): return s._cmp(o, 'ne')
-    __hash__ = None
+
+    def __hash__(s):
+        # all symbols collide: dict/set lookups then compare with ==, which forks on symbolic equality
+        return 0xA51C
 
     def __repr__(s):
         return f'Sym({s.t})'
@@ -796,7 +848,9 @@ class SymInt:
     def __ge__(s, o): return s._cmp(o, 'ge')
     def __eq__(s, o): return s._cmp(o, 'eq')
     def __ne__(s, o): return s._cmp(o, 'ne')
-    __hash__ = None
+    def __hash__(s):
+        # all symbols collide: dict/set lookups then compare with ==, which forks on symbolic equality
+        return 0xA51C
 
     def __repr__(s):
         return f'SymInt({s.t})'
